@@ -266,6 +266,132 @@ func sensitiveObjects() map[string][]gen.Obj {
 	return sensObjs
 }
 
+// ---- configuration histories (replayable) -----------------------------------
+
+type c11Op struct {
+	Op      string   `json:"op"` // set | filter | lint
+	Reg     int      `json:"reg"`
+	Doc     string   `json:"doc,omitempty"`
+	Alias   bool     `json:"alias,omitempty"` // filter with empty options (returns the registry itself)
+	Ex      string   `json:"exclude,omitempty"`
+	ObjKind gen.Kind `json:"obj_kind,omitempty"`
+	ObjDER  []byte   `json:"obj_der,omitempty"`
+	ObjName string   `json:"obj_name,omitempty"`
+}
+
+type c11HistoryCase struct {
+	Ops []c11Op `json:"ops"`
+}
+
+type c11RegState struct {
+	reg lint.Registry
+	cfg string // TOML the model says this registry holds
+	id  int    // alias class
+}
+
+type c11History struct {
+	regs []*c11RegState
+	ops  []c11Op
+	old  lint.Configuration
+}
+
+func newC11History() *c11History {
+	g := lint.GlobalRegistry()
+	h := &c11History{old: g.GetConfiguration()}
+	g.SetConfiguration(lint.NewEmptyConfig())
+	h.regs = []*c11RegState{{reg: g, cfg: "", id: 0}}
+	return h
+}
+
+func (h *c11History) close() { lint.GlobalRegistry().SetConfiguration(h.old) }
+
+func (h *c11History) text() []string {
+	var out []string
+	for _, o := range h.ops {
+		switch o.Op {
+		case "set":
+			out = append(out, fmt.Sprintf("set(%d,%q)", o.Reg, short(o.Doc, 30)))
+		case "filter":
+			out = append(out, fmt.Sprintf("filter(%d,alias=%v)", o.Reg, o.Alias))
+		default:
+			out = append(out, fmt.Sprintf("lint(%d,%s)", o.Reg, o.ObjName))
+		}
+	}
+	return out
+}
+
+// step applies one operation to the implementation and to the model and, for
+// lint operations, compares every verdict with the prediction from the
+// configuration the model says that registry holds.
+func (h *c11History) step(op c11Op) (sig, msg string, skipped bool) {
+	if op.Reg < 0 || op.Reg >= len(h.regs) {
+		return "", "", true
+	}
+	r := h.regs[op.Reg]
+	switch op.Op {
+	case "set":
+		cfg, err := lint.NewConfigFromString(op.Doc)
+		if err != nil {
+			return "", "", true
+		}
+		r.reg.SetConfiguration(cfg)
+		for _, x := range h.regs {
+			if x.id == r.id {
+				x.cfg = op.Doc
+			}
+		}
+	case "filter":
+		var fs engine.FilterSpec
+		if !op.Alias {
+			fs = engine.FilterSpec{ExcludeNames: []string{op.Ex}}
+		}
+		o, _ := fs.Options()
+		nr, err := r.reg.Filter(o)
+		if err != nil {
+			return "", "", true
+		}
+		id := len(h.regs)
+		if op.Alias {
+			id = r.id // Filter with empty options returns the registry itself (documented)
+		}
+		h.regs = append(h.regs, &c11RegState{reg: nr, cfg: r.cfg, id: id})
+	case "lint":
+		f, ok := lintObj(op.ObjKind, op.ObjDER)
+		if !ok {
+			return "", "", true
+		}
+		h.ops = append(h.ops, op)
+		got := engine.Verdicts(f(r.reg))
+		mcfg, _ := lint.NewConfigFromString(r.cfg)
+		exp := map[string]model.Expected{}
+		switch op.ObjKind {
+		case gen.Cert:
+			c2, _ := gen.ParseCert(op.ObjDER)
+			for _, l := range r.reg.CertificateLints().Lints() {
+				exp[l.Name] = model.ExpectCert(l, c2, mcfg)
+			}
+		case gen.CRL:
+			c2, _ := gen.ParseCRL(op.ObjDER)
+			for _, l := range r.reg.RevocationListLints().Lints() {
+				exp[l.Name] = model.ExpectCRL(l, c2, mcfg)
+			}
+		}
+		names := make([]string, 0, len(exp))
+		for n := range exp {
+			names = append(names, n)
+		}
+		sort.Strings(names)
+		for _, n := range names {
+			if e := exp[n]; got[n].Status != e.V.Status {
+				return "config-leak|" + n, fmt.Sprintf("after %v: %s reports %s, the configuration this registry holds (%q) predicts %s", h.text(), n, got[n], r.cfg, e.V), false
+			}
+		}
+		return "", "", false
+	}
+	h.ops = append(h.ops, op)
+	return "", "", false
+}
+
 func TestC11(t *testing.T) {
 	rec := newRec(t, "C11")
 	cis := engine.Configurables()
@@ -369,63 +495,32 @@ func TestC11(t *testing.T) {
 		}
 	})
 	// (e) stateful: configuration does not leak between registries or runs
+	docs := []string{"", "[w_subject_contains_html_entities]\nSkip = true\n", "[e_subj_orgunit_in_ca_cert]\nCrossCert = true\n",
+		"[e_crl_next_update_invalid]\nSubscriberCRL = false\n", "[e_rsa_fermat_factorization]\nRounds = 0\n", "e_rsa_fermat_factorization = 3\n",
+		"[w_subject_contains_html_entities]\nSkip = \"yes\"\n"}
 	rapidRun(t, "histories", perShard(stats.Scale(600, 20000)), func(rt *rapid.T) {
-		g := lint.GlobalRegistry()
-		old := g.GetConfiguration()
-		defer g.SetConfiguration(old)
-		g.SetConfiguration(lint.NewEmptyConfig())
-		type regState struct {
-			reg lint.Registry
-			cfg string // TOML the model says this registry holds
-			id  int    // alias class
-		}
-		regs := []*regState{{reg: g, cfg: "", id: 0}}
-		var hist []string
+		h := newC11History()
+		defer h.close()
 		sets := 0
-		docs := []string{"", "[w_subject_contains_html_entities]\nSkip = true\n", "[e_subj_orgunit_in_ca_cert]\nCrossCert = true\n",
-			"[e_crl_next_update_invalid]\nSubscriberCRL = false\n", "[e_rsa_fermat_factorization]\nRounds = 0\n", "e_rsa_fermat_factorization = 3\n",
-			"[w_subject_contains_html_entities]\nSkip = \"yes\"\n"}
 		rt.Repeat(map[string]func(*rapid.T){
 			"setConfiguration": func(rt *rapid.T) {
-				i := rapid.IntRange(0, len(regs)-1).Draw(rt, "reg")
-				d := docs[rapid.IntRange(0, len(docs)-1).Draw(rt, "doc")]
-				cfg, err := lint.NewConfigFromString(d)
-				if err != nil {
-					rt.Skip("doc does not parse")
-				}
-				regs[i].reg.SetConfiguration(cfg)
-				for _, r := range regs {
-					if r.id == regs[i].id {
-						r.cfg = d
-					}
-				}
+				op := c11Op{Op: "set", Reg: rapid.IntRange(0, len(h.regs)-1).Draw(rt, "reg"), Doc: docs[rapid.IntRange(0, len(docs)-1).Draw(rt, "doc")]}
+				h.step(op)
 				sets++
-				hist = append(hist, fmt.Sprintf("set(%d,%q)", i, short(d, 30)))
 			},
 			"filter": func(rt *rapid.T) {
-				if len(regs) >= 5 {
+				if len(h.regs) >= 5 {
 					rt.Skip("enough registries")
 				}
-				i := rapid.IntRange(0, len(regs)-1).Draw(rt, "reg")
-				var fs engine.FilterSpec
-				alias := rapid.IntRange(0, 4).Draw(rt, "emptyopts") == 0
-				if !alias {
-					fs = engine.FilterSpec{ExcludeNames: []string{rapid.SampledFrom([]string{"e_ca_country_name_missing", "w_ct_sct_policy_count_unsatisfied", "e_crl_has_next_update"}).Draw(rt, "ex")}}
+				op := c11Op{Op: "filter", Reg: rapid.IntRange(0, len(h.regs)-1).Draw(rt, "reg"), Alias: rapid.IntRange(0, 4).Draw(rt, "emptyopts") == 0}
+				if !op.Alias {
+					op.Ex = rapid.SampledFrom([]string{"e_ca_country_name_missing", "w_ct_sct_policy_count_unsatisfied", "e_crl_has_next_update"}).Draw(rt, "ex")
 				}
-				o, _ := fs.Options()
-				nr, err := regs[i].reg.Filter(o)
-				if err != nil {
+				if _, _, skipped := h.step(op); skipped {
 					rt.Skip("name already filtered out")
 				}
-				id := len(regs)
-				if alias {
-					id = regs[i].id // Filter with empty options returns the registry itself (documented)
-				}
-				regs = append(regs, &regState{reg: nr, cfg: regs[i].cfg, id: id})
-				hist = append(hist, fmt.Sprintf("filter(%d,alias=%v)", i, alias))
 			},
 			"lint": func(rt *rapid.T) {
-				i := rapid.IntRange(0, len(regs)-1).Draw(rt, "reg")
 				ci := cis[rapid.IntRange(0, len(cis)-1).Draw(rt, "target")]
 				hs := targets[ci.Name]
 				if ss := sensitiveObjects()[ci.Name]; len(ss) > 0 && rapid.IntRange(0, 3).Draw(rt, "sensitive") > 0 {
@@ -435,42 +530,19 @@ func TestC11(t *testing.T) {
 					rt.Skip("no home object")
 				}
 				o := hs[rapid.IntRange(0, len(hs)-1).Draw(rt, "obj")]
-				hist = append(hist, fmt.Sprintf("lint(%d,%s)", i, o.Name))
-				f, ok := lintObj(o.Kind, o.DER)
-				if !ok {
-					return
-				}
-				got := engine.Verdicts(f(regs[i].reg))
-				mcfg, _ := lint.NewConfigFromString(regs[i].cfg)
-				// prediction: the reference lifecycle under the configuration the model holds
-				exp := map[string]model.Expected{}
-				switch o.Kind {
-				case gen.Cert:
-					c2, _ := gen.ParseCert(o.DER)
-					for _, l := range regs[i].reg.CertificateLints().Lints() {
-						exp[l.Name] = model.ExpectCert(l, c2, mcfg)
-					}
-				case gen.CRL:
-					c2, _ := gen.ParseCRL(o.DER)
-					for _, l := range regs[i].reg.RevocationListLints().Lints() {
-						exp[l.Name] = model.ExpectCRL(l, c2, mcfg)
-					}
-				}
-				for n, e := range exp {
-					if got[n].Status != e.V.Status {
-						c := map[string]interface{}{"history": hist, "lint": n, "got": got[n].String(), "model_config": regs[i].cfg}
-						fail(rt, rec, "c11-history", "config-leak|"+n, fmt.Sprintf("after %v: %s reports %s, the configuration this registry holds (%q) predicts %s", hist, n, got[n], regs[i].cfg, e.V), c)
-					}
+				op := c11Op{Op: "lint", Reg: rapid.IntRange(0, len(h.regs)-1).Draw(rt, "reg"), ObjKind: o.Kind, ObjDER: o.DER, ObjName: o.Name}
+				if sig, msg, _ := h.step(op); msg != "" {
+					fail(rt, rec, "c11-history", sig, msg, c11HistoryCase{Ops: h.ops})
 				}
 			},
 		})
 		rec.Eval()
 		rec.Class("history")
 		if sets >= 2 {
-			rec.NT(stats.HashS(hist...))
+			rec.NT(stats.HashS(h.text()...))
 		}
-		if rec.WantSample() && sets >= 2 && len(hist) > 6 {
-			rec.Sample(map[string]interface{}{"history": hist})
+		if rec.WantSample() && sets >= 2 && len(h.ops) > 6 {
+			rec.Sample(map[string]interface{}{"history": h.text()})
 		}
 	})
 	_ = x509.RSA
@@ -487,5 +559,18 @@ func init() {
 		}
 		return judgeC11(rec, c)
 	})
-	registerReplayer("c11-history", func(rec *stats.Rec, raw json.RawMessage) (string, string) { return "", "" })
+	registerReplayer("c11-history", func(rec *stats.Rec, raw json.RawMessage) (string, string) {
+		var c c11HistoryCase
+		if err := json.Unmarshal(raw, &c); err != nil {
+			return "decode", err.Error()
+		}
+		h := newC11History()
+		defer h.close()
+		for _, op := range c.Ops {
+			if sig, msg, _ := h.step(op); msg != "" {
+				return sig, msg
+			}
+		}
+		return "", ""
+	})
 }
